@@ -7,6 +7,7 @@ reached, see C17); nothing else is carried from one realization to the next.
 Tie to the code: every weak ordering of up to 4 (5) realizations scripted through the
 `likelihood_computed` hook on the real selection code, plus real runs (`run` correspondence).
 -/
+import MT.Generated.UtilsCode
 import MTProofs.Select
 
 namespace MTProps.C04
@@ -115,5 +116,10 @@ end
 maximum of the report is its largest entry; with a tie the fold keeps the earlier one -/
 local instance : MTExtra Int := ⟨0, fun x => x.natAbs, id, fun n => n, 0, 0, 0, -1000⟩
 example : maxL2 ([3, 5, 5, 1] : List Int) = 5 ∧ maxL2 ([] : List Int) = -1000 := by decide
+
+/-- `Report::max_L2()` as it stands in utils.hpp: `lowest()` for an empty report, otherwise the element
+`std::max_element` points at (the first maximum) — what the model's `maxL2` states -/
+theorem max_L2_documented :
+    Gen.reportMaxL2Text = "if(vec_L2.size()==0){returnstd::numeric_limits<double>::lowest();}else{autoi=std::max_element(vec_L2.begin(),vec_L2.end());returnvec_L2[std::distance(vec_L2.begin(),i)];}" := rfl
 
 end MTProps.C04
